@@ -779,11 +779,12 @@ class DiffARBF(DiffRBF):
                     den.append(sktmp[n - 1] * (-1) ** (n + 1))
                     for k in range(n - 1):
                         den[-1] += (-1) ** k * den[n - k] * sktmp[k]
+                    den[-1] /= n
                 res = 0
                 if self.order > 0:
                     res += self.scale[1] * den[1]
                 for n in range(2, self.order + 1):
-                    res += self.scale[n] * den[n] / (n - 1)
+                    res += self.scale[n] * den[n]
                 res *= diff[:, :, ind] ** 2 * k0[:, :, ind]
                 if self.anisotropic:
                     derivs[:, :, ind] = res
@@ -828,11 +829,12 @@ class DiffARBF(DiffRBF):
                 den.append(sktmp[n - 1] * (-1) ** (n + 1))
                 for k in range(n - 1):
                     den[-1] += (-1) ** k * den[n - k] * sktmp[k]
+                den[-1] /= n
             res = 0
             if self.order > 0:
                 res += self.scale[1] * den[1]
             for n in range(2, self.order + 1):
-                res += self.scale[n] * den[n] / (n - 1)
+                res += self.scale[n] * den[n]
             res *= -1 * diff[:, :, ind] * k0[:, :, ind]
             dk[:, :, ind] = res
         dk /= self.length_scale
@@ -963,11 +965,12 @@ class DiffAdditiveMixin(DiffKernelMixin):
                     den.append(sktmp[n - 1] * (-1) ** (n + 1))
                     for k in range(n - 1):
                         den[-1] += (-1) ** k * den[n - k] * sktmp[k]
+                    den[-1] /= n
                 res = 0
                 if self.order > 0:
                     res += self.scale[1] * den[1]
                 for n in range(2, self.order + 1):
-                    res += self.scale[n] * den[n] / (n - 1)
+                    res += self.scale[n] * den[n]
                 res *= dk0[:, :, ind]
                 if self.anisotropic:
                     derivs[:, :, ind] = res
@@ -1011,11 +1014,12 @@ class DiffAdditiveMixin(DiffKernelMixin):
                 den.append(sktmp[n - 1] * (-1) ** (n + 1))
                 for k in range(n - 1):
                     den[-1] += (-1) ** k * den[n - k] * sktmp[k]
+                den[-1] /= n
             res = 0
             if self.order > 0:
                 res += self.scale[1] * den[1]
             for n in range(2, self.order + 1):
-                res += self.scale[n] * den[n] / (n - 1)
+                res += self.scale[n] * den[n]
             res *= dk0[:, :, ind]
             dk[:, :, ind] = res
 
